@@ -55,6 +55,10 @@ def _call_with_timeout(func: Callable[[], T], timeout_s: float) -> T:
     try:
         return future.result(timeout=timeout_s)
     except FutureTimeoutError as exc:
+        if future.done():
+            # The operation itself raised TimeoutError (the futures one is the builtin since
+            # Python 3.11): that is its own outcome, not an attempt that ran out of time.
+            raise
         future.cancel()
         executor.shutdown(wait=False, cancel_futures=True)
         raise TimeoutError(f"Attempt exceeded {timeout_s} seconds.") from exc
